@@ -65,13 +65,18 @@ def quiet_call(fn, **kw):
 class LoaderEnv:
     """a scratch directory with generated source files for one loader, and its variants of arguments"""
 
-    def __init__(self, kind, rng, root):
+    def __init__(self, kind, rng, root, unwrapped=False):
         self.kind = kind
         self.dir = Path(tempfile.mkdtemp(prefix=f'c16_{kind}_', dir=root))
         lat = [[6, 0, 0], [0, 7, 0], [1, 0, 8]]
         species = ['Li', 'Li', 'O']
         T = int(rng.integers(2, 5))
         frames = [np.mod(rng.integers(0, 64, size=(3, 3)) / 64 + 0.01 * t, 1) for t in range(T)]
+        if unwrapped:
+            # unwrapped source coordinates: atoms that left the box through a face stay outside it in the files
+            shift = rng.integers(-1, 2, size=(3, 3)).astype(float)
+            frames = [f + shift * (t >= 1) for t, f in enumerate(frames)]
+        self.frames = frames
         if kind == 'lammps':
             cf, df = mkfiles.write_lammps(self.dir, lat, species, frames)
             self.base = dict(coords_file=cf, data_file=df, temperature=300.0, time_step=1.0)
@@ -127,9 +132,9 @@ def result_sig(r):
     return (r[0], traj_sig(r[1]) if r[0] == 'ok' else r[1])
 
 
-def check_loader(out: Outcome, kind, rng, tier, root):
-    env = LoaderEnv(kind, rng, root)
-    case0 = {'loader': kind}
+def check_loader(out: Outcome, kind, rng, tier, root, unwrapped=False):
+    env = LoaderEnv(kind, rng, root, unwrapped)
+    case0 = {'loader': kind, 'unwrapped_source_coordinates': unwrapped}
     try:
         refs = {}
         names = {}
@@ -137,6 +142,14 @@ def check_loader(out: Outcome, kind, rng, tier, root):
             r, nm = env.reference(v)
             refs[k] = result_sig(r)
             names[k] = nm
+        # the parse itself: positions are the generated fractional coordinates modulo the cell
+        if refs[0][0] == 'ok' and not refs[0][1]['disp']:
+            got_c = np.array(refs[0][1]['coords'])
+            want_c = np.mod(np.array(env.frames), 1)
+            dd = got_c - want_c if got_c.shape == want_c.shape else None
+            if dd is None or np.abs(dd - np.round(dd)).max() > 1e-5 or got_c.min() < 0 or got_c.max() >= 1:
+                out.fail('property', 'parsed-trajectory', case0, expected=want_c.tolist(), observed=got_c.tolist(),
+                         note='positions parsed from the source files are not the source coordinates wrapped into the cell')
         # different parser options use different default cache files (when they change what is parsed)
         for a in range(len(env.variants)):
             for b in range(a + 1, len(env.variants)):
@@ -276,12 +289,13 @@ def run(tier: str, seed: int, scale: int) -> Outcome:
     real_universe = MDAnalysis.Universe
     try:
         check_roundtrip(out, rng, root)
-        for rep in range(scale):
-            check_loader(out, 'lammps', rng, tier, root)
-            check_loader(out, 'vasprun', rng, tier, root)
+        for rep in range(2 * scale):
+            unwrapped = rep % 2 == 1
+            check_loader(out, 'lammps', rng, tier, root, unwrapped)
+            check_loader(out, 'vasprun', rng, tier, root, unwrapped)
             MDAnalysis.Universe = mkfiles.FakeUniverse
             try:
-                check_loader(out, 'gromacs', rng, tier, root)
+                check_loader(out, 'gromacs', rng, tier, root, unwrapped)
             finally:
                 MDAnalysis.Universe = real_universe
     finally:
